@@ -108,6 +108,8 @@ type VC struct {
 	loopList []*loopInfo
 	backEdge map[[2]*ssa.BasicBlock]bool
 	shapes map[*ssa.Function][]*loopShape
+	sharedMemo map[*ssa.Alloc][]*ssa.MakeClosure
+	sharedAllocs []*ssa.Alloc
 	staticLoops []*staticLoop // every loop of the function and of the helpers verified inline, in static order
 	callOrd  map[string]int
 	staticOrd map[ordKey]int
